@@ -74,7 +74,7 @@ def run_frames(ctx):
             api = rnd.choice(["recv", "recvdata:1", "rdf:1", "rf", "recvdata:0"])
             # recv() decodes text to str; with per-fragment delivery (a caller opt-in outside C17's quantifier) a fragment
             # may end inside a code point, so fire_cont_frame is exercised through the bytes-returning calls only
-            cfg = {"tail": tail, "to": 1000, "skip": 0, "fire": 0 if api == "recv" else rnd.choice([0, 0, 1])}
+            cfg = {"tail": tail, "to": rnd.choice([1000, 1000, 0, None]), "skip": 0, "fire": 0 if api == "recv" else rnd.choice([0, 0, 1])}
             if len(s) > 3 and rnd.random() < 0.3:
                 cut = sorted(rnd.sample(range(1, len(s)), min(len(s) - 1, rnd.randint(1, 3))))
                 pts = [0] + cut + [len(s)]
@@ -90,6 +90,9 @@ def run_frames(ctx):
         ctx.case(key=line, nontrivial=len(s) > 0, cls=f"frame-phase:tail={tail}:api={api}:exn={'+'.join(k[2:] for k in kinds) or 'none'}",
                  sample={"stream": s.hex()[:80], "tail": tail, "api": api, "impl": impl[:200]} if len(ctx.samples) < 6 and len(s) > 10 else None)
         inp = {"op": line if len(line) < 300 else line[:300] + "...", "stream": s.hex()[:200], "tail": tail, "api": api}
+        if "X:SPIN" in outs:
+            ctx.violate("progress", "spins-at-end-of-stream", inp, "CLOSED when the stream has ended", "keeps reading the ended stream", size=len(s))
+            continue
         for o in outs:
             if o.startswith("X:") and o not in ALLOWED:
                 ctx.violate("only-documented-exceptions", "frame-phase-" + o[2:], inp, "PROTO/PAYLOAD/CLOSED/TIMEOUT or transport error", o, size=len(s))
